@@ -100,6 +100,8 @@ pub fn record_c11(rec: &mut Recorder, seed: u64, thorough: bool) {
             for &a in att.iter().take(60) { qs.push(a); qs.push(a + 1); qs.push(a - 1); }
             if att.len() > 60 { for _ in 0..60 { qs.push(att[rng.gen_range(0..att.len())]); } }
             qs.extend([lo - 9, lo - 1, hi + 1, hi + 13, (lo + hi) / 2]);
+            // far outside the table on both sides (the scaled score is negative / beyond the last index)
+            qs.extend([lo - 41, lo - 400, lo - 40000, hi + 400, hi + 40000]);
             qs.sort(); qs.dedup();
             let pv: Vec<Value> = qs.iter().map(|&s4| {
                 let (n_, ex) = num(dist.pvalue(s4 as f32 / G as f32), dn);
@@ -134,6 +136,24 @@ fn fine_case(rng: &mut impl Rng, it: usize) -> Case {
     let mut c = gen_case(rng, m, it);
     c.g = 16;
     for row in c.cells.iter_mut() { for x in row.iter_mut() { *x = rng.gen_range(-48..=48); } }
+    c
+}
+
+/// 1/16-grid matrices whose row minima are -(k + 0.3125) or -(k + 0.8125): the row offsets -floor(min / g) at g = 0.01
+/// are then 8 units short of ten times the offsets at g = 0.1 in every row (what a refinement window carried over in
+/// offset units would be displaced by).
+fn displacing_case(rng: &mut impl Rng, it: usize) -> Case {
+    let mut c = fine_case(rng, it);
+    if c.cells.len() < 4 && it % 2 == 0 { let extra = c.cells[0].clone(); c.cells.push(extra); }
+    for row in c.cells.iter_mut() {
+        let mn = -(16 * rng.gen_range(0..3i64) + if rng.gen_bool(0.5) { 5 } else { 13 });
+        let j = rng.gen_range(0..4);
+        for (k, x) in row.iter_mut().enumerate().take(4) {
+            // the other cells: small rounding error at g = 0.1 (cell * 0.625 has fractional part 0, .125 or .25), so
+            // that the accumulated error bound - hence the window margin - stays small
+            if k == j { *x = mn; } else { let v: i64 = rng.gen_range(mn + 1..=48); *x = (v - v.rem_euclid(8) + [0, 5, 2][rng.gen_range(0..3)]).max(mn + 1); }
+        }
+    }
     c
 }
 
@@ -206,7 +226,7 @@ pub fn record_c13(rec: &mut Recorder, seed: u64, thorough: bool) {
     let mut rng = rng(seed, 13);
     let n = if thorough { 260 } else { 70 };
     for it in 0..n {
-        let c = if it % 2 == 1 { fine_case(&mut rng, it) } else { tfm_case(&mut rng, it) };
+        let c = if it % 3 == 2 { displacing_case(&mut rng, it) } else if it % 2 == 1 { fine_case(&mut rng, it) } else { tfm_case(&mut rng, it) };
         let dn = den(&c) as i64;
         let pssm = build(&c);
         // p-values: small fractions, and (quantifier of C13) attainable tail probabilities n / den and the
@@ -214,7 +234,8 @@ pub fn record_c13(rec: &mut Recorder, seed: u64, thorough: bool) {
         let mut ps: Vec<(i64, i64, i64)> = vec![(1, 2, 0), (1, 10, 0), (3, 4, 0), (1, 3, 0), (1, 1000.min(dn), 0)];
         let tl = tails(&c);
         let mut picks: Vec<usize> = (0..tl.len().saturating_sub(1)).collect();
-        while picks.len() > (if thorough { 40 } else { 16 }) { let j = rng.gen_range(0..picks.len()); picks.remove(j); }
+        let displacing = it % 3 == 2;
+        while picks.len() > (if thorough { if displacing { 90 } else { 40 } } else if displacing { 45 } else { 16 }) { let j = rng.gen_range(0..picks.len()); picks.remove(j); }
         for j in picks {
             let nn = tl[j].1;
             if nn > 0 && nn < dn { ps.push((nn, 0, 1)); ps.push((2 * nn + 1, 0, 2)); if nn > 1 { ps.push((2 * nn - 1, 0, 2)); } }
@@ -244,10 +265,56 @@ pub fn record_c13(rec: &mut Recorder, seed: u64, thorough: bool) {
             rec.class(if pc > 0 { "p_attainable_tail_or_midpoint" } else { "p_small_fraction" });
             if shared { rec.class("reused_TfmPvalue_object"); }
             if c.g == 16 { rec.class("fine_grid_matrix"); }
+            if displacing { rec.class("row_offsets_not_scaling_with_granularity"); }
             rec.nontrivial(&(c.cells.clone(), c.bn.clone(), pn, pd, pc));
             let mut e = json!({"ev":"tfm_score","K":5,"G":c.g,"pssm":pssm_json(&c),"bn":bn5(&c),"bd":c.bd,"den":dn,"pn":pn,"pd":pd.max(1),"pc":pc});
             match r { Ok(v) => { e["ret"] = json!("ok"); e["iters"] = json!(v); } Err(msg) => { e["ret"] = json!("panic"); e["msg"] = json!(msg); e["iters"] = json!([]); } }
             rec.emit(e);
         }
+    }
+}
+
+
+/// Diagnostic only (`lmconform explore C13 - --seed N`): how often each matrix family exposes a final threshold that is
+/// further than (M + 2) g from the exact one.  Not part of any check; used to design the drivers.
+pub fn explore_c13(seed: u64) {
+    let mut rng = rng(seed, 1300);
+    for fam in ["tfm", "fine", "displacing"] {
+        let (mut cases, mut queries, mut bad, mut badcases) = (0, 0, 0, 0);
+        for it in 0..120 {
+            let c = match fam { "tfm" => tfm_case(&mut rng, it), "fine" => fine_case(&mut rng, it), _ => displacing_case(&mut rng, it) };
+            let dn = den(&c) as i64;
+            let pssm = build(&c);
+            let tl = tails(&c);
+            let m = c.cells.len() as f64;
+            cases += 1;
+            let mut anybad = false;
+            for j in 0..tl.len().saturating_sub(1) {
+                let nn = tl[j].1;
+                if nn <= 0 || nn >= dn { continue; }
+                let p = (2 * nn + 1) as f64 / (2 * dn) as f64;
+                let exact = tl[j].0 as f64 / c.g as f64;         // smallest attainable score whose tail is <= p
+                let _ = exact;
+                let r = guarded(|| { let mut t = TfmPvalue::new(&pssm); t.approximate_score(p).map(|it| (it.score, it.granularity)).collect::<Vec<_>>() });
+                queries += 1;
+                let tail = |x: f64| -> f64 { // P(S >= x) as a numerator
+                    let mut best = 0i64;
+                    for &(sc, acc) in tl.iter() { if sc as f64 / c.g as f64 >= x - 1e-9 { best = acc; } else { break; } }
+                    best as f64
+                };
+                match r {
+                    Ok(steps) => for (t, g) in steps {
+                        let d = (m + 2.0) * g;
+                        let c1 = tail(t + d) <= p * dn as f64 + 1e-9;
+                        let u = tl.iter().map(|x| x.0 as f64 / c.g as f64).filter(|&x| x < t - d - 1e-9).fold(f64::NEG_INFINITY, f64::max);
+                        let c2 = !u.is_finite() || tail(u - d) >= p * dn as f64 - 1e-9;
+                        if !(c1 && c2) { bad += 1; anybad = true; break; }
+                    },
+                    Err(_) => { bad += 1; anybad = true; }
+                }
+            }
+            if anybad { badcases += 1; }
+        }
+        println!("{}: {} cases, {} with a bad query; {} queries, {} bad", fam, cases, badcases, queries, bad);
     }
 }
